@@ -363,12 +363,21 @@ func GetRulePatterns(ctx *Context, rule map[string]interface{}) []map[string]int
 	if !have {
 		return nil
 	}
-	when := eventPattern.(map[string]interface{})
+	when, ok := eventPattern.(map[string]interface{})
+	if !ok {
+		// Not a pattern.  (Don't panic: the caller might hold the
+		// state's lock.)
+		return nil
+	}
 	events := make([]map[string]interface{}, 0, 1)
 	p, fromQuery := when["pattern"]
 	// ToDo: Better type processing.
 	if fromQuery {
-		events = append(events, p.(map[string]interface{}))
+		m, ok := p.(map[string]interface{})
+		if !ok {
+			return nil
+		}
+		events = append(events, m)
 	} else {
 		events = append(events, when)
 	}
